@@ -239,7 +239,9 @@ pub fn run(c: &C05Case) -> Outcome {
 							if remaining <= i128::from(c.delay_run.unwrap_or(0)) / 2 + i128::from(c.debounce) {
 								break "boundary";
 							}
-						} else if el >= 150 && remaining >= 200 {
+						} else if el >= 150 && remaining >= i128::from(slack_ms) + 50 {
+							// "clearly mid-run": the command will still be running when the handler has acted on the
+							// change (debounce + --delay-run) even if the handler is late by the whole slack
 							break "mid-run";
 						} else if cmdk == 0 && remaining < 200 && *pos != Pos::AtExit {
 							// too close to the exit: wait for the next opportunity (it becomes idle)
@@ -388,7 +390,10 @@ pub fn run(c: &C05Case) -> Outcome {
 			for s in &mid {
 				let Some(r) = run_of(s) else { continue };
 				let n = r.signals.iter().filter(|(t, sg)| *t >= s.before && *t <= s.after + u128::from(slack_ms) * 1_000_000 && *sg == stop_sig).count();
-				if n == 0 {
+				// evidence of a violation: the run was still alive a full slack after the change and had not got
+				// the signal; a run that ended by itself before that tells nothing (the handler may have acted late)
+				let alive_through = r.end.map_or(true, |e| e > s.after + u128::from(slack_ms) * 1_000_000);
+				if n == 0 && alive_through {
 					o.fail("signal:not-delivered", format!("a mid-run change was not followed by signal {stop_sig} to the running command{}", dump()));
 					return o;
 				}
@@ -418,8 +423,8 @@ pub fn run(c: &C05Case) -> Outcome {
 				let Some(r) = run_of(s) else { continue };
 				let sig = r.signals.iter().find(|(t, sg)| *t >= s.before && *sg == stop_sig);
 				let Some((tsig, _)) = sig else {
-					if r.end.map_or(false, |e| e < s.after + 50_000_000) {
-						continue; // it had just ended
+					if r.end.map_or(false, |e| e < s.after + u128::from(slack_ms) * 1_000_000) {
+						continue; // it ended by itself before the handler can be shown to have acted
 					}
 					o.fail("restart:no-stop-signal", format!("a mid-run change in restart mode was not followed by the stop signal {stop_sig}{}", dump()));
 					return o;
@@ -521,7 +526,7 @@ fn strategy() -> BoxedStrategy<C05Case> {
 		proptest::option::weighted(0.3, 50u16..150),
 		20u16..50,
 		prop_oneof![3 => Just(0u8), 2 => Just(1u8), 2 => Just(2u8)],
-		prop_oneof![Just(450u16), Just(600), Just(800)],
+		prop_oneof![Just(450u16), Just(900), Just(1300)],
 		proptest::collection::vec(pos, 1..5),
 	)
 		.prop_map(|(mode, shorthand, stop_signal, stop_timeout, delay_run, debounce, cmd, exit_after, changes)| C05Case {
@@ -579,7 +584,7 @@ fn run_e2e(c: &E2eCase) -> Outcome {
 	let mut child = match cmd.spawn() {
 		Ok(c) => c,
 		Err(e) => {
-			o.fail("harness:wx-spawn", e.to_string());
+			o.fail("env:wx-spawn", e.to_string());
 			return o;
 		}
 	};
@@ -623,7 +628,7 @@ fn run_e2e(c: &E2eCase) -> Outcome {
 }
 
 pub fn check(e: &Engine) {
-	e.assume("real time and real processes: 'clearly mid-run' = >= 150 ms after the start and >= 200 ms before a scheduled exit; 'clearly idle' = >= 150 ms after the end; changes aimed at a boundary only assert non-overlap, freshness and 'at most one extra run'; a failure must reproduce 3 times (freshness failures, which depend on a select! race the harness does not own and are protected by a > 1.3 s quiescence wait: once more in 5 re-executions)");
+	e.assume("real time and real processes: 'clearly mid-run' = >= 150 ms after the start and, for a command that exits by itself, at least 400 ms + debounce + --delay-run before its scheduled exit (so the handler acts while it still runs even if it is late by the whole slack); 'signal not delivered' / 'no stop signal' need the run to have been alive a full slack after the change; 'clearly idle' = >= 150 ms after the end; changes aimed at a boundary only assert non-overlap, freshness and 'at most one extra run'; a failure must reproduce 3 times (freshness failures, which depend on a select! race the harness does not own and are protected by a > 1.3 s quiescence wait: once more in 5 re-executions)");
 	e.assume("the queue-mode window between 'queued start processed' and the reset of the queued flag is microseconds wide and is not reached by real-time generation (DESIGN.md §5)");
 	if !helper_path().exists() || !wx_path().exists() {
 		e.inconclusive("vhelper / wx binaries not built next to vcheck");
@@ -646,7 +651,7 @@ pub fn check(e: &Engine) {
 			..LegOpts::realtime(
 			e.tier.pick(180, 3_000),
 			16,
-			"the four on-busy modes (and the -r / --signal shorthands), stop signal TERM/INT/USR1, stop timeout 100-400 ms, optional --delay-run, debounce 20-50 ms; command exits after 450-800 ms / runs until signalled / ignores the stop signal; 1-4 changes positioned against the observed lifecycle: clearly mid-run, clearly idle, at the moment of exit, inside the grace period, back-to-back, and (restart / queue with --delay-run 200-400 ms) timed so that the command exits during the handler's delay sleep; non-trivial = a mid-run or boundary change",
+			"the four on-busy modes (and the -r / --signal shorthands), stop signal TERM/INT/USR1, stop timeout 100-400 ms, optional --delay-run, debounce 20-50 ms; command exits after 450-1300 ms / runs until signalled / ignores the stop signal; 1-4 changes positioned against the observed lifecycle: clearly mid-run, clearly idle, at the moment of exit, inside the grace period, back-to-back, and (restart / queue with --delay-run 200-400 ms) timed so that the command exits during the handler's delay sleep; non-trivial = a mid-run or boundary change",
 		)},
 		&strategy,
 		&run,
